@@ -18,7 +18,7 @@ def declare(n):
             v = z3.Int(f"{nm}{i}")
             vs.append(v)
             cs += [v >= -1, v <= 1]
-    vs += [z3.Bool("use_avoid"), z3.Bool("as_bn"), z3.Bool("default_sources"), z3.Int("problem"), z3.Int("limit")]
+    vs += [z3.Bool("use_avoid"), z3.Bool("as_bn"), z3.Bool("default_sources"), z3.Bool("reverse"), z3.Int("problem"), z3.Int("limit")]
     cs += [z3.Int("problem") >= 0, z3.Int("problem") <= 2, z3.Int("limit") >= -1, z3.Int("limit") <= 4]
     # 'max' needs a free variable in the enclosing subspace
     cs.append(z3.Or([z3.Int(f"ens{i}") == -1 for i in range(n)]))
@@ -35,6 +35,7 @@ def read(names, hist, symbolic):
         avo = {nm: t for i, nm in enumerate(names) if (t := SymInt(z3.Int(f"avo{i}")).concrete()) >= 0} if use_avoid else None
         as_bn = CTX.obs(z3.Bool("as_bn"))
         dsrc = CTX.obs(z3.Bool("default_sources"))
+        rev = CTX.obs(z3.Bool("reverse"))
         problem = ("min", "max", "fix")[SymInt(z3.Int("problem")).concrete()]
         lim = SymInt(z3.Int("limit")).concrete()
     else:
@@ -42,20 +43,21 @@ def read(names, hist, symbolic):
         use_avoid = bool(hist.get("use_avoid"))
         avo = {nm: int(hist[f"avo{i}"]) for i, nm in enumerate(names) if hist.get(f"avo{i}", -1) >= 0} if use_avoid else None
         as_bn, dsrc = bool(hist.get("as_bn")), bool(hist.get("default_sources"))
+        rev = bool(hist.get("reverse"))
         problem = ("min", "max", "fix")[int(hist.get("problem", 0))]
         lim = int(hist.get("limit", -1))
-    return ens, avo, as_bn, dsrc, problem, (None if lim < 0 else lim)
+    return ens, avo, as_bn, dsrc, problem, (None if lim < 0 else lim), rev
 
 
 def execute(rules, names, hist, symbolic):
     import biobalm.succession_diagram as SDM
-    ens, avo, as_bn, dsrc, problem, lim = read(names, hist, symbolic)
+    ens, avo, as_bn, dsrc, problem, lim, rev = read(names, hist, symbolic)
     bn = SDM.cleanup_network(SDM.BooleanNetwork.from_bnet(rules))
     pn = SDM.network_to_petrinet(bn)
     src = None if dsrc else list(SDM.extract_source_variables(pn))
-    r = ops.guarded(lambda: SDM.trappist(bn if as_bn else pn, problem=problem, ensure_subspace=ens, avoid_subspaces=[avo] if avo else [],
+    r = ops.guarded(lambda: SDM.trappist(bn if as_bn else pn, problem=problem, reverse_time=rev, ensure_subspace=ens, avoid_subspaces=[avo] if avo else [],
                                          optimize_source_variables=src, solution_limit=lim))
-    out = {"exc": r["exc"], "msg": r.get("msg"), "args": {"ensure": ens, "avoid": avo, "as_bn": as_bn, "default_sources": dsrc, "problem": problem, "limit": lim}}
+    out = {"exc": r["exc"], "msg": r.get("msg"), "args": {"ensure": ens, "avoid": avo, "as_bn": as_bn, "default_sources": dsrc, "problem": problem, "limit": lim, "reverse": rev}}
     if r["exc"] is None:
         out["answer"] = [ops._t(names, s) for s in r["ret"]]
     # the reduced-STG solver with the enclosing space as retained set on its free complement is exercised through the
@@ -86,12 +88,12 @@ def assertion(B, out, symbolic):
     if a["problem"] == "max":
         # the set of source variables is symbolic: case split over it through src-aware candidates
         def ok(M):
-            return B.And([B.trap(M)] + [B.Not(B.is_source(v, E)) for v in range(n) if M[v] is None and ens[v] is None])
+            return B.And([B.rtrap(M) if a.get("reverse") else B.trap(M)] + [B.Not(B.is_source(v, E)) for v in range(n) if M[v] is None and ens[v] is None])
         free = [v for v in range(n) if ens[v] is None]
         cands = [M for M in B.subspaces if refines(M, ens) and any(M[v] is not None for v in free) and not any(refines(M, x) for x in avoid)]
         spec = {M: B.And([ok(M)] + [B.Not(ok(M2)) for M2 in cands if M2 != M and refines(M, M2)]) for M in cands}
     else:
-        spec = B.trappist_spec(a["problem"], E, None, ens, (), avoid)
+        spec = B.trappist_spec(a["problem"], E, None, ens, (), avoid, reverse=bool(a.get("reverse")))
     lim = a["limit"]
     if lim is None:
         for M, f in spec.items():
